@@ -92,11 +92,12 @@ def actor_cfg() -> Dict[str, Any]:
                   "on": {"BACK": "a"}},
         },
         "on": {
-            "SPAWN": {"actions": [A.spawn_child("kid", actor_id="k1", system_id="sys1"), "tr:spawn"]},
-            "SPAWN2": {"actions": [A.spawn_child("kid", actor_id="k2"), "tr:spawn2"]},
+            # (explicit ids in a proper-prefix relation, 'k' / 'k2', each with a systemId of its own)
+            "SPAWN": {"actions": [A.spawn_child("kid", actor_id="k", system_id="sys1"), "tr:spawn"]},
+            "SPAWN2": {"actions": [A.spawn_child("kid", actor_id="k2", system_id="sys2"), "tr:spawn2"]},
             "PING": {"actions": [A.send_to("sys1", "POKE"), "tr:ping"]},
-            "PING2": {"actions": [A.send_to("k2", "POKE"), "tr:ping2"]},
-            "KILL": {"actions": [A.stop_child("k1"), "tr:kill"]},
+            "PING2": {"actions": [A.send_to("sys2", "POKE"), "tr:ping2"]},
+            "KILL": {"actions": [A.stop_child("k"), "tr:kill"]},
 
             "HIST": {"target": "#m.b.h"},
             "INC": {"actions": [A.assign(lambda a: {"k": (a["context"]["k"] + 1) % 2})]},
